@@ -132,12 +132,14 @@ static std::string run_loadw(const std::string& v, const std::string& evil, cons
   g_watch_cell = p.UNSAFE_unverified();
   g_watch_reads = 0;
   g_watch_nth = static_cast<unsigned>(std::stoul(nth));
+  rlbox::detail::verif_conv_read_hook = watch_hook;
   rlbox::detail::verif_read_hook = watch_hook;
   std::string out;
   try {
     rlbox::tainted<K, Sbx> t = *p;
     out = "OK " + show_int(t.UNSAFE_unverified());
-  } catch (...) { rlbox::detail::verif_read_hook = nullptr; throw; }
+  } catch (...) { rlbox::detail::verif_conv_read_hook = nullptr; rlbox::detail::verif_read_hook = nullptr; throw; }
+  rlbox::detail::verif_conv_read_hook = nullptr;
   rlbox::detail::verif_read_hook = nullptr;
   return out;
 }
